@@ -21,7 +21,9 @@ vars == <<sc, ruleText, dataArg, stdin, dataText, pc, pending, outcome, stdout, 
 
 \* r / d: index into the valid corpus, or negative: an invalid text class; mode: 1 argument, 2 stdin (argument omitted), 3 stdin ("-")
 TextOf(C, i) == IF i > 0 THEN Valid(C[i]) ELSE Invalid(BadClasses[-i])
-Scenarios == [r : (1..Len(RV18)) \cup {-1, -2, -3, -4}, d : (1..Len(DV18)) \cup {-1, -2, -3, -4, -5}, mode : {1, 2, 3}]
+\* st: how the harness writes the (valid) texts - 1 compact, 2 pretty-printed over several lines, 3 padded with
+\* white space and with object keys in reverse order; the model abstracts texts to values, so st cannot matter
+Scenarios == [r : (1..Len(RV18)) \cup {-1, -2, -3, -4}, d : (1..Len(DV18)) \cup {-1, -2, -3, -4, -5}, mode : {1, 2, 3}, st : {1, 2, 3}]
 \* class -5: invalid UTF-8, only on standard input
 Admissible(s) == s.d = -5 => s.mode \in {2, 3}
 DataTextOf(s) == IF s.d = -5 THEN Invalid("badutf8") ELSE TextOf(DV18, s.d)
@@ -59,9 +61,9 @@ PipeLaw ==
 \* ---- export: one scenario per terminal state (+ the pipe scenarios of log-free first stages)
 ExportScenarios ==
   pc = "exit" =>
-    Serialize(ToJson([id |-> sc, rule |-> ruleText, mode |-> sc.mode, data |-> Designated,
+    Serialize(ToJson([id |-> sc, rule |-> ruleText, mode |-> sc.mode, style |-> sc.st, data |-> Designated,
                       exp |-> [status |-> status, out |-> stdout],
-                      pipe |-> IF status = "zero" /\ Len(stdout) = 1 /\ sc.mode = 1
+                      pipe |-> IF status = "zero" /\ Len(stdout) = 1 /\ sc.mode = 1 /\ sc.st = 1
                                THEN [j \in DOMAIN P2V18 |->
                                       LET e == Eval(P2V18[j], stdout[1])
                                       IN [rule2 |-> P2V18[j], status |-> IF e.ok THEN "zero" ELSE "nonzero",
